@@ -38,6 +38,10 @@ func c03Gen(seed uint64, run int, tier string) *Case {
 	if tier == "thorough" {
 		maxReq = 64
 	}
+	if run%16 == 9 {
+		c03VersionGen(r, c)
+		return c
+	}
 	twice := run%4 == 3
 	cancels := run%4 == 2
 	c.Stratum = "single-answer"
@@ -97,6 +101,10 @@ func c03Gen(seed uint64, run int, tier string) *Case {
 }
 
 func c03Exec(x *Ctx) {
+	if x.C.cfg("midversion") != 0 {
+		c03Version(x)
+		return
+	}
 	if x.C.cfg("seconderr") != 0 {
 		// recorded known finding: a duplicate answer given with RespondError
 		// re-packs a reply buffer that is in flight or already recycled
